@@ -196,28 +196,11 @@ mod u128_str {
 }
 
 impl Ty {
-    pub fn is_prim(&self) -> bool {
-        matches!(self, Ty::Prim(_))
-    }
-    pub fn as_struct(&self) -> Option<&StructDef> {
-        if let Ty::Struct(s) = self { Some(s) } else { None }
-    }
     pub fn ext(&self) -> Option<Ext> {
         match self {
             Ty::Struct(s) => Some(s.ext),
             Ty::Union(u) => Some(u.ext),
             _ => None,
-        }
-    }
-    /// nesting depth: prim/string/enum = 0, aggregated/collection = 1 + max(children)
-    pub fn depth(&self) -> u32 {
-        match self {
-            Ty::Prim(_) | Ty::Str(_) | Ty::WStr(_) | Ty::Enum(_) => 0,
-            Ty::Struct(s) => 1 + s.members.iter().map(|m| m.ty.depth()).max().unwrap_or(0),
-            Ty::Union(u) => {
-                1 + u.cases.iter().filter_map(|c| c.ty.as_ref()).map(|t| t.depth()).max().unwrap_or(0)
-            }
-            Ty::Seq(e, _) | Ty::Array(e, _) => 1 + e.depth(),
         }
     }
     /// aggregation depth counting only struct/union levels
@@ -342,12 +325,11 @@ pub struct GenCfg {
     pub big_ids: bool,
     /// keys are generated (C11/C12) – otherwise a few members are keys at random
     pub keyed: bool,
-    pub thorough: bool,
 }
 
 impl GenCfg {
     pub fn new(thorough: bool) -> Self {
-        GenCfg { depth: if thorough { 5 } else { 3 }, max_members: 5, wstr: false, f128: true, big_ids: true, keyed: false, thorough }
+        GenCfg { depth: if thorough { 5 } else { 3 }, max_members: 5, wstr: false, f128: true, big_ids: true, keyed: false }
     }
 }
 
@@ -858,16 +840,5 @@ pub fn default_val(ty: &Ty) -> Val {
         Ty::Union(_) => Val::Union { disc: 0, case: None, val: None },
         Ty::Seq(_, _) => Val::List(vec![]),
         Ty::Array(e, n) => Val::List((0..*n).map(|_| default_val(e)).collect()),
-    }
-}
-
-/// number of scalar leaves (size measure used for statistics)
-pub fn val_size(v: &Val) -> usize {
-    match v {
-        Val::Struct(ms) => ms.iter().flatten().map(val_size).sum::<usize>() + 1,
-        Val::Union { val, .. } => 1 + val.as_ref().map(|v| val_size(v)).unwrap_or(0),
-        Val::List(l) => 1 + l.iter().map(val_size).sum::<usize>(),
-        Val::Str(s) => 1 + s.len() / 8,
-        _ => 1,
     }
 }
